@@ -1,6 +1,8 @@
 package task
 
 import (
+	"time"
+	"runtime"
 	"bufio"
 	"context"
 	"fmt"
@@ -213,9 +215,18 @@ func ZZ_C02_Compile() {
 	v := zz.Str("callvar", 2, "ab")
 	ign := zz.Bool("ignore_error")
 	sil := zz.Bool("silent")
+	// each row is a literal list or a ref to a variable holding the list
+	osRow, archRow := &ast.MatrixRow{Value: []any{o0, o1}}, &ast.MatrixRow{Value: []any{a0, a1}}
+	osIsRef, archIsRef := zz.Bool("matrix_row_OS_is_a_ref"), zz.Bool("matrix_row_ARCH_is_a_ref")
+	if osIsRef {
+		osRow = &ast.MatrixRow{Ref: ".OSLIST"}
+	}
+	if archIsRef {
+		archRow = &ast.MatrixRow{Ref: ".ARCHLIST"}
+	}
 	matrix := ast.NewMatrix(
-		&ast.MatrixElement{Key: "OS", Value: &ast.MatrixRow{Value: []any{o0, o1}}},
-		&ast.MatrixElement{Key: "ARCH", Value: &ast.MatrixRow{Value: []any{a0, a1}}},
+		&ast.MatrixElement{Key: "OS", Value: osRow},
+		&ast.MatrixElement{Key: "ARCH", Value: archRow},
 	)
 	callVars := ast.NewVars()
 	callVars.Set("V", ast.Var{Value: v})
@@ -232,6 +243,8 @@ func ZZ_C02_Compile() {
 	callee := &ast.Task{Task: "callee", Location: &ast.Location{Taskfile: "/d/f.yml"}, Vars: ast.NewVars(), Env: ast.NewVars(),
 		Cmds: []*ast.Cmd{{Cmd: "got {{.V}}"}}}
 	tf := &ast.Taskfile{Vars: ast.NewVars(), Env: ast.NewVars(), Tasks: ast.NewTasks(), Run: "always", Method: "checksum"}
+	tf.Vars.Set("OSLIST", ast.Var{Value: []any{o0, o1}})
+	tf.Vars.Set("ARCHLIST", ast.Var{Value: []any{a0, a1}})
 	tf.Tasks.Set("t", t)
 	tf.Tasks.Set("callee", callee)
 	zzRun = zzEchoShell
@@ -395,6 +408,42 @@ func zzCheckErrorClass(g *zzGraph, tr []zz.Event, err error) {
 	}
 }
 
+// zzCheckIgnoredSuppressed: when every failing command is covered by ignore_error on the
+// command or on its own task, the failures are suppressed: the task goes on with its next
+// command and the invocation succeeds.
+func zzCheckIgnoredSuppressed(g *zzGraph, tr []zz.Event, err error) {
+	n := 0
+	for _, ev := range tr {
+		if ev.Kind != "F" || ev.Val == 0 {
+			continue
+		}
+		t := g.task(zzTaskOf(ev.ID))
+		c := t.Cmds[zzCmdIndex(ev.ID)]
+		if c.Defer {
+			continue
+		}
+		if !c.IgnoreError && !t.IgnoreError {
+			return // an effective failure: the other monitors apply
+		}
+		n++
+	}
+	if n == 0 {
+		return
+	}
+	zz.Assert(err == nil, "ignored-failure-does-not-affect-the-final-status")
+	for pos, ev := range tr {
+		if ev.Kind != "F" || ev.Val == 0 {
+			continue
+		}
+		name, k := zzTaskOf(ev.ID), zzCmdIndex(ev.ID)
+		t := g.task(name)
+		if k+1 < len(t.Cmds) && t.Cmds[k+1].Call == "" && !t.Cmds[k+1].Defer && !t.Cmds[k].Defer {
+			s := zzIndex(tr, "S", zzProbeID(name, k+1), 0)
+			zz.Assert(s > pos, "ignored-failure-continues-with-the-next-command/"+name)
+		}
+	}
+}
+
 // zzCheckIgnoredCall: a task with ignore_error whose nested call fails because of a
 // failing command somewhere below it continues with its next command, and the
 // invocation succeeds if nothing else fails.
@@ -447,6 +496,11 @@ func zzShapeC03(n int) (*zzGraph, []string) {
 			{Name: "P", Deps: []string{"D"}, Cmds: []zzCmd{probe}},
 			{Name: "D", Cmds: []zzCmd{probe}},
 		}}, []string{"R"}
+	case 7: // --parallel: the shared run-once task is itself named next to a task depending on it
+		return &zzGraph{Tasks: []zzTask{
+			{Name: "A", Deps: []string{"S"}, Cmds: []zzCmd{probe}},
+			{Name: "S", Run: "once", Cmds: []zzCmd{probe}},
+		}}, []string{"S", "A"}
 	case 6: // a shared run-once task whose first caller has a failing sibling, and a second caller in another group
 		return &zzGraph{Tasks: []zzTask{
 			{Name: "R", Deps: []string{"P", "Q"}},
@@ -467,15 +521,39 @@ func zzShapeC03(n int) (*zzGraph, []string) {
 }
 
 func ZZ_C03_FailStop() {
+	// which goroutine registers a shared execution first cannot be steered through the
+	// output sink: natively the parallel-roots shape is run a few times on one and on all
+	// processors (with one, the goroutine spawned last runs first)
+	reps := 1
+	if zz.Native() && zz.Param("shape", 0) == 7 {
+		reps = 200
+		zzSinkStep = 0
+		defer runtime.GOMAXPROCS(runtime.GOMAXPROCS(0))
+	}
 	g, roots := zzShapeC03(zz.Param("shape", 0))
 	tf := g.build(zzFailingDefault(g))
-	tr, err := zzExec(g, tf, zzRunOpts{}, roots...)
-	zzCheckIgnoredCall(g, tr, err)
-	zzCheckFailStop(g, tr, err)
-	zzCheckCallers(g, tr)
-	zzCheckC01(g, tr)
-	zzCheckErrorClass(g, tr, err)
-	zzCheckAllWorkDone(g, tr, err, roots)
+	if sh := zz.Param("shape", 0); (sh == 0 || sh == 1) && zz.Bool("tasks_come_from_an_included_file") {
+		// included tasks are deep copies made by Tasks.Merge: ignore_error must survive it
+		merged := ast.NewTasks()
+		if err := merged.Merge(tf.Tasks, &ast.Include{Flatten: true}, nil); err != nil {
+			zz.Assert(false, "merge-must-not-fail")
+			return
+		}
+		tf.Tasks = merged
+	}
+	for r := 0; r < reps; r++ {
+		if reps > 1 {
+			runtime.GOMAXPROCS(1 + (r%2)*15)
+		}
+		tr, err := zzExec(g, tf, zzRunOpts{Parallel: len(roots) > 1}, roots...)
+		zzCheckIgnoredCall(g, tr, err)
+		zzCheckIgnoredSuppressed(g, tr, err)
+		zzCheckFailStop(g, tr, err)
+		zzCheckCallers(g, tr)
+		zzCheckC01(g, tr)
+		zzCheckErrorClass(g, tr, err)
+		zzCheckAllWorkDone(g, tr, err, roots)
+	}
 	if zz.Twin() {
 		zz.Assert(false, "twin")
 	}
@@ -489,7 +567,7 @@ func ZZ_C06_RunModes() {
 	mode := zzRunModes[1+zz.Choose("run.S", 3)]
 	v1 := zz.Str("v1", 1, "ab")
 	v2 := zz.Str("v2", 1, "ab")
-	reach := zz.Choose("binding_reaches", 3) // 0: label (hashed text), 1: only env, 2: only vars
+	reach := zz.Choose("binding_reaches", 4) // 0: label (hashed text), 1: only env, 2: only vars, 3: nothing but the call variable itself (a global env entry has the same name)
 	s := zzTask{Name: "S", Run: mode, Cmds: []zzCmd{probe}}
 	g := &zzGraph{Tasks: []zzTask{
 		{Name: "R", Deps: []string{"A", "B"}},
@@ -506,6 +584,9 @@ func ZZ_C06_RunModes() {
 		st.Env.Set("E", ast.Var{Value: "{{.V}}"})
 	case 2:
 		st.Vars.Set("W", ast.Var{Value: "{{.V}}"})
+	case 3:
+		// ... next to a global env entry of the same name, which must not hide it from the key
+		tf.Env.Set("V", ast.Var{Value: "fixed"})
 	}
 	tr, err := zzExec(g, tf, zzRunOpts{}, "R")
 	n := zzCount(tr, "S", "S.0")
@@ -615,9 +696,15 @@ func ZZ_C07_CallLimit() {
 	e.Compiler = &Compiler{Dir: "", TaskfileEnv: tf.Env, TaskfileVars: tf.Vars, Logger: e.Logger}
 	e.Concurrency = zz.Choose("concurrency", 3)
 	e.setupConcurrencyState()
+	// attributes of the task and of the call that the limit must not depend on (only the
+	// --watch mode of the whole invocation lifts it)
+	at, _ := tf.Tasks.Get("A")
+	at.Watch = zz.Bool("task_has_watch_true")
+	at.Internal = zz.Bool("task_is_internal")
+	at.Run = zzRunModes[zz.Choose("run.A", len(zzRunModes))]
 	c := zz.Int("calls_so_far", 0, 2000)
 	*e.taskCallCount["A"] = int32(c)
-	err := e.RunTask(context.Background(), &Call{Task: "A"})
+	err := e.RunTask(context.Background(), &Call{Task: "A", Indirect: zz.Bool("call_is_indirect")})
 	tr := zz.Trace()
 	zz.Assert(int(*e.taskCallCount["A"]) == c+1, "call-count-increases-by-one")
 	// whatever the outcome, the call hands back every concurrency slot it took
@@ -654,6 +741,16 @@ func ZZ_C14_Defer() {
 		tt.Cmds[0].Cmd += "#code={{.EXIT_CODE}}" // the deferred command sees the failing command's status
 	} else {
 		tt.Cmds[0].Cmd = "echo S:T.0; echo X:T.0:{{.EXIT_CODE}}; echo F:T.0:0"
+	}
+	// the task may be reached under another name than its key in the task table
+	tt.Aliases = []string{"Talias"}
+	if zz.Bool("task_called_by_its_alias") {
+		rt, _ := tf.Tasks.Get("R")
+		for _, d := range rt.Deps {
+			if d.Task == "T" {
+				d.Task = "Talias"
+			}
+		}
 	}
 	tr, err := zzExec(g, tf, zzRunOpts{}, "R")
 	// which defer entries were reached: entry k is reached iff the loop got to index k,
@@ -816,10 +913,18 @@ func ZZ_C13_Guards() {
 			guardFails, wantCode = true, errors.CodeTaskInternal
 		}
 	}
-	if zz.Bool("tasks_come_from_an_included_file") {
+	included := zz.Bool("tasks_come_from_an_included_file")
+	includeInternal := false
+	if guard == 6 && included && zz.Bool("internal_is_set_on_the_include_statement") {
+		gt.Internal = false
+		includeInternal = true
+		// every task of the harness comes from that include, the named one too
+		guardFails, wantCode = true, errors.CodeTaskInternal
+	}
+	if included {
 		// included tasks are deep copies made by Tasks.Merge: the guards must survive it
 		merged := ast.NewTasks()
-		if err := merged.Merge(tf.Tasks, &ast.Include{Flatten: true}, nil); err != nil {
+		if err := merged.Merge(tf.Tasks, &ast.Include{Flatten: true, Internal: includeInternal}, nil); err != nil {
 			zz.Assert(false, "merge-must-not-fail")
 			return
 		}
@@ -904,6 +1009,9 @@ func zzOutShell(ctx context.Context, opts *execext.RunCommandOptions) error {
 	if opts.Stdout != nil {
 		_, _ = io.WriteString(opts.Stdout, "o:"+f[1]+"\n")
 	}
+	if f[2] == "9" { // interrupted: not an exit status
+		return context.Canceled
+	}
 	if f[2] != "0" {
 		return interp.NewExitStatus(3)
 	}
@@ -914,7 +1022,9 @@ func zzOutShell(ctx context.Context, opts *execext.RunCommandOptions) error {
 // something and (not error_only or it failed) - also when the failure is ignored.
 func ZZ_C17_RunCommand() {
 	errorOnly := zz.Bool("error_only")
-	failB := zz.Bool("b_fails")
+	// command b succeeds, exits non-zero, or is interrupted after it wrote its output
+	bOutcome := zz.Choose("b_outcome", 3)
+	failB := bOutcome != 0
 	ignoreB := zz.Bool("b_ignore_error")
 	taskIgnore := zz.Bool("task_ignore_error")
 	text := func(id string, fail bool) string {
@@ -930,6 +1040,17 @@ func ZZ_C17_RunCommand() {
 	tf := &ast.Taskfile{Vars: ast.NewVars(), Env: ast.NewVars(), Tasks: ast.NewTasks(), Run: "always", Method: "checksum"}
 	t := &ast.Task{Task: "t", IgnoreError: taskIgnore, Location: &ast.Location{Taskfile: "/d/f.yml"}, Vars: ast.NewVars(), Env: ast.NewVars(),
 		Cmds: []*ast.Cmd{{Cmd: text("a", false)}, {Cmd: text("b", failB), IgnoreError: ignoreB}, {Cmd: text("c", false)}}}
+	ctx := context.Background()
+	if bOutcome == 2 {
+		if zz.Native() {
+			t.Cmds[1].Cmd = "printf 'o:b\\n'; sleep 5"
+			var cancel context.CancelFunc
+			ctx, cancel = context.WithTimeout(ctx, 300*time.Millisecond)
+			defer cancel()
+		} else {
+			t.Cmds[1].Cmd = "out b 9"
+		}
+	}
 	tf.Tasks.Set("t", t)
 	zzRun = zzOutShell
 	zzEnviron = []string{"HOME=/h"}
@@ -939,10 +1060,10 @@ func ZZ_C17_RunCommand() {
 	e.Logger = zzQuietLogger()
 	e.Compiler = &Compiler{Dir: "", TaskfileEnv: tf.Env, TaskfileVars: tf.Vars, Logger: e.Logger}
 	e.setupConcurrencyState()
-	err := e.Run(context.Background(), &Call{Task: "t"})
+	err := e.Run(ctx, &Call{Task: "t"})
 	all := strings.Join(sink.writes, "")
 	block := func(id string) string { return "<\no:" + id + "\n>\n" }
-	cRuns := !failB || ignoreB || taskIgnore
+	cRuns := bOutcome == 0 || (bOutcome == 1 && (ignoreB || taskIgnore))
 	zz.Assert((err == nil) == cRuns, "run-result")
 	for _, c := range []struct {
 		id     string
